@@ -1,11 +1,13 @@
 /-
 C04 — List (and array) elements are never duplicated, lost, resurrected or reordered.
-Theorems about the RGA model (list.go / ordered.go); document arrays use the same skip rule
-(Model/Doc calls the same `insertAfterId`), their lifting to whole documents is not yet proved.
+Theorems about the RGA model (list.go / ordered.go) and, END TO END, about the system of n replicas and one server log
+(Proofs/ListNet, ListNetOrder: any public call, pushes and pulls in any interleaving — no causality hypothesis).
+Document arrays use the same skip rule (Model/Doc calls the same `insertAfterId`); end to end: Proofs/DocNetOrder.
 -/
 import Orda.Proofs.Rga
 import Orda.Proofs.RgaFull
 import Orda.Proofs.DocArr
+import Orda.Proofs.ListNetOrder
 namespace Orda.Props.C04
 open Orda
 
@@ -86,5 +88,56 @@ theorem doc_array_delete_keeps_order (d : Doc) (p : Ts) (tgs : List Ts) (t q : T
     DA.slotIds (DA.applyA d (.del p tgs t)) q = DA.slotIds d q := DA.del_slotIds d p tgs t q
 theorem doc_array_update_keeps_order (d : Doc) (p t : Ts) (tgs : List Ts) (vs : List JVal) (q : Ts) (hq : q.key ≠ t.key) :
     DA.slotIds (DA.applyA d (.upd p t tgs vs)) q = DA.slotIds d q := DA.upd_slotIds d p t tgs vs q hq
+
+/-! ### END TO END (`LNet`): every statement of C04 in every reachable state of the system, at every moment -/
+
+open Orda.LNet in
+/-- any two elements appear in the same relative order on every replica and at EVERY moment of the history, not only at
+    quiescence -/
+theorem same_relative_order_everywhere_at_every_moment (cuid : Nat → String) (n : Nat) (net : LNet.Net)
+    (h : LNet.Reach cuid n net) (i j : Nat) (li lj : Rga) (x y : Ts)
+    (hi : (net.nodes[i]?.map (·.r.state)) = some (DState.list li))
+    (hj : (net.nodes[j]?.map (·.r.state)) = some (DState.list lj))
+    (hxi : x ∈ li.ids) (hyi : y ∈ li.ids) (hxj : x ∈ lj.ids) (hyj : y ∈ lj.ids) :
+    ([x, y].Sublist li.ids ↔ [x, y].Sublist lj.ids) :=
+  lnet_same_relative_order_everywhere h i j li lj x y hi hj hxi hyi hxj hyj
+
+open Orda.LNet in
+/-- present exactly once on every replica that has received its insert: a replica's identities are, without repetition,
+    exactly the identities inserted by the operations it has applied -/
+theorem present_exactly_once_where_received (cuid : Nat → String) (n : Nat) (net : LNet.Net) (h : LNet.Reach cuid n net)
+    (i : Nat) (nd : LNet.Node) (l : Rga) (hi : net.nodes[i]? = some nd) (hs : nd.r.state = .list l) :
+    l.ids.Nodup ∧ ∀ x, x ∈ l.ids ↔ ∃ o ∈ appliedOps net.log i nd, x ∈ insertedIds o :=
+  lnet_ids_are_the_inserted h i nd l hi hs
+
+open Orda.LNet in
+/-- deleted iff its delete has been received (and it never comes back: next theorem) -/
+theorem deleted_iff_its_delete_was_received (cuid : Nat → String) (n : Nat) (net : LNet.Net) (h : LNet.Reach cuid n net)
+    (i : Nat) (nd : LNet.Node) (l : Rga) (hi : net.nodes[i]? = some nd) (hs : nd.r.state = .list l) :
+    ∀ e ∈ l.nodes, (e.v = none ↔ ∃ o ∈ appliedOps net.log i nd, e.o ∈ deleteTargets o) :=
+  lnet_deleted_iff_delete_applied h i nd l hi hs
+
+open Orda.LNet in
+/-- no step of the system — call, push, pull — removes or reorders an element on any replica, and none resurrects one -/
+theorem no_step_loses_reorders_or_resurrects (cuid : Nat → String) (n : Nat) (net net' : LNet.Net)
+    (h : LNet.Reach cuid n net) (hs : LNet.Step net net') (i : Nat) (l l' : Rga)
+    (hl : (net.nodes[i]?.map (·.r.state)) = some (DState.list l))
+    (hl' : (net'.nodes[i]?.map (·.r.state)) = some (DState.list l')) :
+    l.ids.Sublist l'.ids ∧
+      ∀ x, (∃ nd ∈ l.nodes, nd.o = x ∧ nd.v = none) → (∃ nd ∈ l'.nodes, nd.o = x ∧ nd.v = none) :=
+  ⟨lnet_step_only_adds h hs i l l' hl hl', fun x hx => lnet_step_keeps_tombstones h hs i l l' x hl hl' hx⟩
+
+open Orda.LNet in
+/-- a local insert at index i is immediately readable at index i -/
+theorem local_insert_is_immediately_readable (cuid : Nat → String) (n : Nat) (net : LNet.Net) (h : LNet.Reach cuid n net)
+    (i : Nat) (nd : LNet.Node) (pos : Int) (vs : List JVal) (hi : net.nodes[i]? = some nd) (hne : vs ≠ [])
+    (hok : (nd.r.call (.linsert pos vs)).2 = .ok (.vals vs)) :
+    ((nd.r.call (.linsert pos vs)).1.call (.lgetMany pos vs.length)).2 = .ok (.vals vs) :=
+  lnet_local_insert_readable h i nd pos vs hi hne hok
+
+open Orda.LNet in
+/-- every reachable state can be continued to a quiescent one (where all replicas hold one state: C01) -/
+theorem quiescence_is_reachable (cuid : Nat → String) (n : Nat) (net : LNet.Net) (h : LNet.Reach cuid n net) :
+    ∃ net', LNet.Reaches net net' ∧ LNet.Quiescent net' := lnet_can_quiesce h
 
 end Orda.Props.C04
